@@ -400,7 +400,10 @@ class LossScenario(explore.Scenario):
 
     EVENTS = ['call0', 'call1', 'call2', 'reply0', 'cbA', 'cbB', 'cancelA',
               'proxE', 'proxK', 'proxI', 'introReply', 'proxI2',
-              'pcbE', 'pcbK', 'pcbI', 'pcbI2', 'pcancelE', 'dropK']
+              'pcbE', 'pcbK', 'pcbI', 'pcbI2', 'pcancelE', 'dropK',
+              # the same callable registered a second time / one more
+              # registration of it cancelled
+              'cbA2', 'cancelA2', 'pcbE2', 'pcancelE2']
 
     def build(self):
         from txdbus import interface as I
@@ -415,6 +418,7 @@ class LossScenario(explore.Scenario):
         w.completed = set()
         w.cbs = {}             # callback name -> list of invocations
         w.active_cbs = set()
+        w.regs = {}            # callback name -> live registrations
         w.proxies = {}         # name -> proxy
         w.proxy_results = {}   # name -> results of getRemoteObject Deferred
         w.pcbs = {}            # (proxy name) -> invocations
@@ -440,6 +444,14 @@ class LossScenario(explore.Scenario):
             if e == 'reply0' and 'call0' not in w.used:
                 continue
             if e == 'cancelA' and 'cbA' not in w.used:
+                continue
+            if e == 'cbA2' and 'cbA' not in w.used:
+                continue
+            if e == 'cancelA2' and not ({'cbA2', 'cancelA'} <= w.used):
+                continue
+            if e == 'pcbE2' and 'pcbE' not in w.used:
+                continue
+            if e == 'pcancelE2' and not ({'pcbE2', 'pcancelE'} <= w.used):
                 continue
             if e == 'introReply' and not w.intro_serial:
                 continue
@@ -491,9 +503,16 @@ class LossScenario(explore.Scenario):
                 w.cbs[e + '.fn'] = cb
                 conn.notifyOnDisconnect(cb)
                 w.active_cbs.add(e)
-            elif e == 'cancelA':
+                w.regs[e] = 1
+            elif e == 'cbA2':
+                conn.notifyOnDisconnect(w.cbs['cbA.fn'])
+                w.regs['cbA'] += 1
+                w.active_cbs.add('cbA')
+            elif e in ('cancelA', 'cancelA2'):
                 conn.cancelNotifyOnDisconnect(w.cbs['cbA.fn'])
-                w.active_cbs.discard('cbA')
+                w.regs['cbA'] -= 1
+                if not w.regs['cbA']:
+                    w.active_cbs.discard('cbA')
             elif e == 'proxE':
                 sink = w.proxy_results.setdefault('E', [])
                 d = conn.getRemoteObject('org.ex.Dest', '/obj', w.iface)
@@ -529,6 +548,10 @@ class LossScenario(explore.Scenario):
                     w.nintro += 1
                     w.completed.add('intro' + name)
                 w.intro_serial = {}
+            elif e == 'pcbE2':
+                w.proxies['E'].notifyOnDisconnect(w.pcbs['E.fn'])
+                w.regs['pE'] += 1
+                w.active_pcbs.add('E')
             elif e.startswith('pcb'):
                 name = e[3:]
                 sink = w.pcbs.setdefault(name, [])
@@ -539,9 +562,12 @@ class LossScenario(explore.Scenario):
                 w.pcbs[name + '.fn'] = pcb
                 prox.notifyOnDisconnect(pcb)
                 w.active_pcbs.add(name)
-            elif e == 'pcancelE':
+                w.regs['p' + name] = 1
+            elif e in ('pcancelE', 'pcancelE2'):
                 w.proxies['E'].cancelNotifyOnDisconnect(w.pcbs['E.fn'])
-                w.active_pcbs.discard('E')
+                w.regs['pE'] -= 1
+                if not w.regs['pE']:
+                    w.active_pcbs.discard('E')
             elif e == 'dropK':
                 del w.proxies['K']
                 w.dropped.add('K')
@@ -607,6 +633,10 @@ class LossScenario(explore.Scenario):
                 continue
             inv = w.cbs[name]
             want = [(True, 'ConnectionDone')] if name in w.active_cbs else []
+            if w.regs.get(name, 0) == 2 and inv == want * 2:
+                # the same callable registered twice and still twice: once
+                # per registration is as good a reading as once
+                inv = want
             if inv != want:
                 viol.append(('%s/loss/connection-callback/%s/ran-%d-times'
                              % (PROP, 'registered' if want else 'cancelled',
@@ -621,6 +651,8 @@ class LossScenario(explore.Scenario):
             if name in w.dropped:
                 continue        # not live any more: nothing demanded
             want = [(True, 'ConnectionDone')] if name in w.active_pcbs else []
+            if w.regs.get('p' + name, 0) == 2 and inv == want * 2:
+                inv = want
             if inv != want:
                 viol.append(('%s/loss/proxy-callback/%s/%s/ran-%d-times'
                              % (PROP, {'E': 'explicit', 'K': 'known-name',
@@ -692,13 +724,13 @@ def run(ctx):
             ctx, LossScenario,
             {'events': ['proxE', 'proxK', 'proxI', 'introReply', 'pcbE',
                         'pcbK', 'pcbI', 'proxI2', 'pcbI2', 'dropK',
-                        'pcancelE']},
-            max_depth=14, label='loss: proxies only, to the fixpoint')
+                        'pcancelE', 'pcbE2', 'pcancelE2']},
+            max_depth=16, label='loss: proxies only, to the fixpoint')
         explore.explore(
             ctx, LossScenario,
             {'events': ['call0', 'call1', 'call2', 'reply0', 'cbA', 'cbB',
-                        'cancelA']},
-            max_depth=12, label='loss: calls and callbacks, to the fixpoint')
+                        'cancelA', 'cbA2', 'cancelA2']},
+            max_depth=14, label='loss: calls and callbacks, to the fixpoint')
     else:
         explore.explore(ctx, LossScenario, {'events': ALL}, max_depth=7,
                         label='loss: all events, depth 7',
@@ -707,13 +739,13 @@ def run(ctx):
             ctx, LossScenario,
             {'events': ['proxE', 'proxK', 'proxI', 'introReply', 'pcbE',
                         'pcbK', 'pcbI', 'proxI2', 'pcbI2', 'dropK',
-                        'pcancelE']},
-            max_depth=14, label='loss: proxies only, to the fixpoint')
+                        'pcancelE', 'pcbE2', 'pcancelE2']},
+            max_depth=16, label='loss: proxies only, to the fixpoint')
         explore.explore(
             ctx, LossScenario,
             {'events': ['call0', 'call1', 'call2', 'reply0', 'cbA', 'cbB',
-                        'cancelA']},
-            max_depth=12, label='loss: calls and callbacks, to the fixpoint')
+                        'cancelA', 'cbA2', 'cancelA2']},
+            max_depth=14, label='loss: calls and callbacks, to the fixpoint')
     ctx.bounds = {'address_entries': 3}
 
 
